@@ -101,8 +101,6 @@ def apply_cfg(sim, cfg):
         # SABA shares WHFast's internal state and is documented to require Jacobi coordinates (with another
         # setting it reports an error but still runs part 2 on stale arrays)
         sim.ri_whfast.coordinates = "jacobi"
-    if cfg["integrator"] == "trace" and sim.dt < 0:
-        sim.dt = -sim.dt     # TRACE's encounter step does not support dt<0 (known finding recorded under C08)
     # WHFast/SABA/MERCURIUS/TRACE select their own gravity routine and leave it selected; the library warns
     # ("probably not correct") when another integrator then runs with it, so a user switching integrators
     # re-selects the gravity routine.
@@ -262,7 +260,7 @@ def run_history(case, ctx):
                 settle(sim)
                 sim.t = model[0][0]          # e.g. reset the clock after a burn-in: same time as the first snapshot
                 classes.add("t_equals_first")
-            elif kind == "integrate_back" and model and sim.N > 0 and sim.integrator != "trace":
+            elif kind == "integrate_back" and model and sim.N > 0:
                 budget[0] = 0
                 sim.integrate(model[0][0])   # there and back: exactly the time of the first snapshot
                 classes.add("t_equals_first")
